@@ -556,6 +556,40 @@ class Interp:
                     # promoted constants are 'static: hand out stable references
                     self.const_cache[cname] = v
                     return v
+        # promoted bodies of methods: the reference names the impl by its type (`Writer::close::promoted[0]`,
+        # `<T as Trait>::m::promoted[0]`), the body is printed under `<impl at file:line>`
+        m_ = re.search(r"([A-Za-z_][A-Za-z0-9_]*)::(promoted\[\d+\])\s*$", name)
+        if m_:
+            meth, prom = m_.group(1), m_.group(2)
+            cands = []
+            for cname, body in self.prog.consts.items():
+                cs = path_segments(cname)
+                if len(cs) >= 2 and cs[-1] == prom and cs[-2] == meth:
+                    cands.append((cname, body, cs))
+            if segs and len(cands) > 1:
+                # same module prefix (segments before the type / impl segment)
+                pre = [x for x in segs[:-3]]
+                cands = [c for c in cands if [x for x in c[2][:-3]][:len(pre)] == pre] or cands
+            if len(cands) > 1:
+                # the impl's self type, via the source scan
+                want = segs[-3] if segs and len(segs) >= 3 else None
+                if want is None:
+                    mm = re.match(r"<\s*([^>]*?)\s+as\s", name)
+                    want = path_segments(mm.group(1))[-1] if mm else None
+                narrowed = []
+                for c in cands:
+                    impl = next((x for x in c[2] if isinstance(x, str) and x.startswith("<impl at")), None)
+                    ty = self.src.impl_self_type(impl) if (impl and hasattr(self.src, "impl_self_type")) else None
+                    if ty is not None and want is not None and ty.split("::")[-1].split("<")[0] == want:
+                        narrowed.append(c)
+                cands = narrowed or cands
+            if len(cands) == 1:
+                cname, body, _cs = cands[0]
+                if cname in self.const_cache:
+                    return self.const_cache[cname]
+                v = self.eval_const(frame, body[1]) if isinstance(body, tuple) else self.run_fn(body, [])
+                self.const_cache[cname] = v
+                return v
         # unit structs / enum unit variants of known enums
         if segs:
             last = segs[-1]
